@@ -74,7 +74,7 @@ func groupOnly(ct *Contract) bool {
 	}
 	return ct.Kind == "func" && len(ct.Requires) == 0 && len(ct.Ensures) == 0 && len(ct.Modifies) == 0 && !ct.HasModifies &&
 		!ct.Assumed && !ct.Pure && !ct.Fresh && !ct.Function && len(ct.GhostSet) == 0 && len(ct.AtCall) == 0 &&
-		len(ct.Nilable) == 0 && len(ct.NonNil) == 0 && len(ct.LoopInv) == 0 && len(ct.LoopStep) == 0
+		len(ct.Nilable) == 0 && len(ct.NonNil) == 0 && len(ct.LoopInv) == 0 && len(ct.LoopStep) == 0 && len(ct.LoopEntry) == 0
 }
 
 // inlinedEverywhere: a helper the contracts do not know, which every caller executes in place: its
